@@ -19,7 +19,7 @@ const FIXED_NAME: &str = "Fixed_Profile";
 const FIXED_UUID: &str = "00000000-0000-0000-0000-000000abcdef";
 
 fn yaml(kind: &str, port: u16) -> String {
-    let mut y = format!("address: \"127.0.0.1:{port}\"\ntimeout: 40\n");
+    let mut y = format!("address: \"{}:{port}\"\ntimeout: 40\n", if kind == "dualstack" { "[::]" } else { "127.0.0.1" });
     if kind != "defaults" {
         y.push_str(&format!("max_packet_length: {MAX_LEN}\n"));
     }
@@ -51,7 +51,8 @@ fn yaml(kind: &str, port: u16) -> String {
     y
 }
 
-/// kind: full (everything configured, secret in the secret file) | proxy (full + PROXY protocol) | offline
+/// kind: full (everything configured, secret in the secret file) | proxy (full + PROXY protocol) | dualstack (full,
+/// bound to [::]: the IPv4 clients of the harness are seen under their IPv4-mapped addresses) | offline
 /// (authentication disabled, no secret, no limiter) | defaults (full, but limits left at their defaults)
 pub fn spawn(kind: &str) -> App {
     spawn_env(kind, &[])
@@ -100,7 +101,7 @@ type Viol = (String, String, Value);
 fn cookie(key: &[u8], age: i64, ip: &str, user: &str) -> Vec<u8> {
     let now = SystemTime::now().duration_since(UNIX_EPOCH).unwrap().as_secs() as i64;
     let body = serde_json::to_vec(&json!({
-        "timestamp": (now - age).max(0), "client_addr": format!("{ip}:1"), "user_name": user,
+        "timestamp": (now - age).max(0), "client_addr": if ip.contains(':') { format!("[{ip}]:1") } else { format!("{ip}:1") }, "user_name": user,
         "user_id": "09879557-e479-45a9-b434-a56377674627", "target": "t", "profile_properties": [], "extra": {},
     }))
     .unwrap();
@@ -120,7 +121,12 @@ async fn connect(addr: SocketAddr, kind: &str) -> std::io::Result<McClient> {
 }
 
 fn client_ip(kind: &str) -> &'static str {
-    if kind == "proxy" { SRC } else { "127.0.0.1" }
+    match kind {
+        "proxy" => SRC,
+        // an IPv4 client of a dual-stack socket is seen under its IPv4-mapped address
+        "dualstack" => "::ffff:127.0.0.1",
+        _ => "127.0.0.1",
+    }
 }
 
 /// a whole login; returns the record (all packets up to the end of the connection)
@@ -464,12 +470,12 @@ async fn issue_cases(addr: SocketAddr, kind: &str, out: &Mutex<Vec<Viol>>) -> u6
 
 pub fn host(rep: &Report, prop: &str, _thorough: bool) {
     let kinds: Vec<&str> = match prop {
-        "C01" | "C02" => vec!["full", "proxy"],
+        "C01" | "C02" => vec!["full", "proxy", "dualstack"],
         "C03" => vec!["full"],
         "C04" => vec!["full", "defaults"],
         "C05" | "C06" | "C09" => vec!["full", "offline", "proxy"],
         "C07" => vec!["full", "proxy"],
-        "C10" => vec!["full", "defaults", "proxy"],
+        "C10" => vec!["full", "defaults", "proxy", "dualstack"],
         _ => return,
     };
     let out: Mutex<Vec<Viol>> = Mutex::new(vec![]);
